@@ -14,7 +14,7 @@ Pipeline: tokenizer (comments and whitespace dropped) -> recursive-descent parse
 TRANSLATION SCHEME
 ==================
 Semantic domain.  A value of the generic type `T` is a Lean `Int` (unbounded: machine overflow is NOT part of
-this translation, see docs/notes/C11-translator.md).  `Option<X>` is `Option X'`, `(X, Y)` is `X' × Y'`.
+this translation, see docs/notes/translator.md).  `Option<X>` is `Option X'`, `(X, Y)` is `X' × Y'`.
 Every function and every loop returns `Except Rlib.Panic _`; the only panics this subset can raise are
 `divzero` (`/`, `%` by zero) and `fuel` (the translation's own recursion budget).
 
@@ -118,7 +118,9 @@ class Tok:
         return f"{self.kind}:{self.val}@{self.line}"
 
 
-def tokenize(src, file):
+def tokenize(src, file, allow_strings=False):
+    """`allow_strings`: string / char literals and lifetimes become opaque tokens (kind `str`) instead of errors — for files
+    in which only some items are translated; the parsers have no rule that accepts such a token."""
     toks = []
     i, n, line = 0, len(src), 1
     while i < n:
@@ -152,7 +154,20 @@ def tokenize(src, file):
             while j < n and (src[j].isalnum() or src[j] == "_"):
                 j += 1
             if src[i:j] in ("r", "b", "br") and j < n and src[j] in "\"'#":
-                raise TranslateError(file, line, "string / byte literals are outside the translated subset")
+                if not allow_strings:
+                    raise TranslateError(file, line, "string / byte literals are outside the translated subset")
+                m = re.match(r"(?:br?|r)(#*)\"", src[i:]) if "r" in src[i:j] else None
+                if m:                                    # raw string: ends at `"` followed by the same number of `#`
+                    end = src.find('"' + m.group(1), i + m.end())
+                    if end < 0:
+                        raise TranslateError(file, line, "unterminated raw string")
+                    end += 1 + len(m.group(1))
+                    toks.append(Tok("str", src[i:end], line, i))
+                    line += src.count("\n", i, end)
+                    i = end
+                    continue
+                i = j                                    # `b"…"` / `b'…'`: the prefix is dropped, the literal follows
+                continue
             toks.append(Tok("ident", src[i:j], line, i))
             i = j
         elif c.isdigit():
@@ -162,7 +177,24 @@ def tokenize(src, file):
             toks.append(Tok("int", src[i:j], line, i))
             i = j
         elif c in "\"'":
-            raise TranslateError(file, line, "string / char literals and lifetimes are outside the translated subset")
+            if not allow_strings:
+                raise TranslateError(file, line, "string / char literals and lifetimes are outside the translated subset")
+            if c == '"':
+                j = i + 1
+                while j < n and src[j] != '"':
+                    j += 2 if src[j] == "\\" else 1
+                if j >= n:
+                    raise TranslateError(file, line, "unterminated string literal")
+                j += 1
+            else:
+                m = re.match(r"'(?:\\(?:u\{[0-9a-fA-F_]+\}|x[0-9a-fA-F]{2}|.)|[^\\'])'", src[i:])
+                m = m or re.match(r"'[A-Za-z_][A-Za-z0-9_]*", src[i:])
+                if not m:
+                    raise TranslateError(file, line, "malformed char literal / lifetime")
+                j = i + m.end()
+            toks.append(Tok("str", src[i:j], line, i))
+            line += src.count("\n", i, j)
+            i = j
         else:
             for p in PUNCT:
                 if src.startswith(p, i):
@@ -191,9 +223,9 @@ KEYWORDS = {"as", "break", "const", "continue", "crate", "else", "enum", "extern
 
 
 class Parser:
-    def __init__(self, src, file):
+    def __init__(self, src, file, allow_strings=False):
         self.file = file
-        self.toks = tokenize(src, file)
+        self.toks = tokenize(src, file, allow_strings)
         self.i = 0
         self.tyvar = None      # name of the generic type parameter of the function being parsed
 
